@@ -18,10 +18,12 @@ CVC5_TIMEOUT_S = int(os.environ.get("PYVC_CVC5_S", "30"))
 CVC5 = "/usr/bin/cvc5"
 
 
-def to_smt2(assumptions, goal, expect_sat=False, qf=True):
+def to_smt2(assumptions, goal, expect_sat=False, qf=True, watch=None):
     """SMT-LIB text of `assumptions and not goal` (or `and goal` for covers), made quantifier-free (pyvc.quant)."""
     from .quant import make_qf
     asserts = list(assumptions) + [goal if expect_sat else z3.Not(goal)]
+    for k, t in (watch or {}).items():
+        asserts.append(z3.Const(f"watch!{k}", t.sort()) == t)   # definitional: does not change satisfiability
     stats = {}
     if qf:
         asserts, stats = make_qf(asserts)
@@ -166,7 +168,7 @@ def _work(i):
             smt2, stats = to_smt2(pc, o.goal, True, qf=False)
             job = {"id": i, "smt2": smt2, "z3_ms": 5000, "cvc5_s": 5}
         else:
-            smt2, stats = to_smt2(o.pc, o.goal, o.expect_sat)
+            smt2, stats = to_smt2(o.pc, o.goal, o.expect_sat, watch=o.watch)
             job = {"id": i, "smt2": smt2}
         job["both"] = bool(os.environ.get("PYVC_BOTH"))
         job["seed"] = int(os.environ.get("VERIF_SEED", "0") or 0) % 1000
